@@ -313,6 +313,9 @@ func (s *State) comp(name, sort string) Term {
 	// first use: the initial (entry) value of this component. All snapshots must agree, so the
 	// constant's name is derived from the component name.
 	c0 := fmt.Sprintf("|%s@%d|", name, s.HavocEpoch)
+	if s.C.constGlobals[name] {
+		c0 = fmt.Sprintf("|%s@0|", name) // A-INIT: never assigned after package initialisation
+	}
 	s.C.declare(c0, sort)
 	s.C.compSorts[name] = sort
 	s.Heap[name] = c0
@@ -328,6 +331,9 @@ func compIn(c *Ctx, h Heap, name, sort string) Term {
 		fmt.Sscanf(e, "%d", &ep)
 	}
 	c0 := fmt.Sprintf("|%s@%d|", name, ep)
+	if c.constGlobals[name] {
+		c0 = fmt.Sprintf("|%s@0|", name)
+	}
 	c.declare(c0, sort)
 	c.compSorts[name] = sort
 	return c0
@@ -363,7 +369,12 @@ func (c *Ctx) mapComps(m *types.Map) (dom, val, ln string, domSort, valSort, lnS
 
 func (c *Ctx) globalComp(g *ssa.Global) (name, sort string, t types.Type) {
 	t = g.Type().(*types.Pointer).Elem()
-	return "G:" + shortPkg(g.Pkg.Pkg.Path()) + "." + g.Name(), c.sortOf(t), t
+	name = "G:" + shortPkg(g.Pkg.Pkg.Path()) + "." + g.Name()
+	if !c.P.MutableGlobals[g] {
+		c.constGlobals[name] = true
+		c.assume("A-INIT: package-level variable " + name[2:] + " is never assigned after initialisation")
+	}
+	return name, c.sortOf(t), t
 }
 
 // ---------------------------------------------------------------------------
